@@ -141,7 +141,8 @@ def gen(rng, prop, tier):
             ops.append({'op': 'r_reset', 'r': rng.randrange(N_REPORTERS),
                         'm': rng.choice([None, None, 1, 2, 3])})
     return {'engine': NAME, 'cfg': {'callbacks': cbs, 'use_global': use_global,
-                                    'falsy_sender': falsy}, 'ops': ops}
+                                    'falsy_sender': falsy,
+                                    'value_sender': rng.random() < 0.3}, 'ops': ops}
 
 
 def validate(plan):
@@ -211,6 +212,17 @@ class EmptySender(Sender):
         return 0
 
 
+class Senders(dict):
+    """name -> sender object. A value-like sender (a tuple) is built afresh at every use: equal to,
+    but not the same object as, the one a callback was connected with."""
+    value_like = ()
+
+    def __getitem__(self, name):
+        if name in self.value_like:
+            return tuple([name, len(name)])
+        return dict.__getitem__(self, name)
+
+
 class CallbackRaised(Exception):
     pass
 
@@ -232,7 +244,9 @@ class World(object):
             self.em = pev._EVENT
         else:
             self.em = pev.EventEmitter()
-        self.senders = {'S%d' % i: Sender('S%d' % i) for i in range(N_SENDERS)}
+        self.senders = Senders({'S%d' % i: Sender('S%d' % i) for i in range(N_SENDERS)})
+        if cfg.get('value_sender'):
+            self.senders.value_like = ('S2',)
         if cfg.get('falsy_sender'):
             self.senders['S1'] = EmptySender('S1')
         self.reporters = []
@@ -255,7 +269,8 @@ class World(object):
             n = world.count.get(i, 0) + 1
             world.count[i] = n
             ret = [i, n]
-            world.calls.append((i, world.sender_name.get(id(sender), '?'), list(args),
+            world.calls.append((i, sender[0] if isinstance(sender, tuple)
+                                else world.sender_name.get(id(sender), '?'), list(args),
                                 dict(kwargs), ret, world.depth))
             if c['raises_on'] is not None and n == c['raises_on']:
                 raise CallbackRaised(i)
